@@ -445,18 +445,21 @@ def _case_from_json(j, origin):
                 [val_from_json(a) for a in j.get("args", [])], val_from_json(j.get("subst", {"hex": "58"})), origin)
 
 
-def gen_cases(rng, n, per_grammar=3, max_depth=4, features=None, context=False, scoping=False):
+def gen_cases(rng, n, per_grammar=3, max_depth=4, features=None, context=False, scoping=False, family=None):
     g = peggen.Gen(rng, max_depth=max_depth, features=features)
     out = []
     while len(out) < n:
-        p = g.scoping() if scoping else (g.context() if context else g.top())
+        if family is not None:
+            p = getattr(g, family)()
+        else:
+            p = g.scoping() if scoping else (g.context() if context else g.top())
         if peggen.size(p) > 40:
             continue
         for _ in range(per_grammar + (2 if scoping else 0)):
             t = g.scoping_text(p) if scoping else g.text_for(p)
             st = rng.choice([0, 0, 0, 1, 2, len(t)])
             st = min(st, len(t))
-            out.append(Case(p, t, st, g.args(), g.subst()))
+            out.append(Case(p, t, st, g.args(), g.subst(), "gen" if family is None else "gen/" + family))
     return out[:n]
 
 
@@ -573,6 +576,10 @@ def run(ctx, only_cases=None):
         cases += gen_cases(ctx.rng.fork("context"), n // 3, context=True)
         cases += gen_cases(ctx.rng.fork("scoping"), n // 8, scoping=True)
         cases += gen_cases(ctx.rng.fork("all"), n - n // 4 - n // 3 - n // 8, max_depth=4)
+        # nested text windows with window-end-sensitive matching after the inner window; tagged captures nested in another
+        # capture mode with a later reader of the tag (on top of the budget above)
+        cases += gen_cases(ctx.rng.fork("windows"), n // 8, family="windows", per_grammar=4)
+        cases += gen_cases(ctx.rng.fork("tagged-nest"), n // 8, family="tagged_nest", per_grammar=3)
     for c in cases:
         c.leak = leak
     stats = {"cases": len(cases), "harness_lines": 0, "model_lines": 0}
@@ -659,6 +666,7 @@ def run(ctx, only_cases=None):
                 "real match of (* G ($)) at every position (ASan, exact-size text); Lean Op+Den on the dumped bytecode, Lean Spec on the source; "
                 "python reference on the core fragment; non-trivial = distinct (grammar,text,start) with grammar size > 1",
         "samples": [c.describe() for c in cases[:2] + cases[-2:]],
+        "case_families": {o: sum(1 for c in cases if c.origin == o) for o in sorted(set(c.origin for c in cases))},
         "cases": len(cases), "harness_answers": stats["harness_lines"], "model_answers": stats["model_lines"],
         "python_reference_checked": ref_checked, "combinator_histogram": dict(sorted(kinds_hist.items())), "match_outcomes": outcome_hist,
         "text_lengths": {str(k): sum(1 for c in cases if len(c.text) == k) for k in sorted(set(len(c.text) for c in cases))},
